@@ -156,6 +156,8 @@ def m3_kmeans_init(ck, em, rng, count):
         init = np.vstack([base, base[:1] + 50.0, base[:1] - 70.0])[:K] + 0.0
         if len(init) < K:
             init = np.vstack([init, r.normal(size=(K - len(init), d)) * 100])
+        # the clusters that capture nothing can be any of them (the first alone, one in the middle, several)
+        init = init[r.permutation(K)]
         ck.replayed += 1
         ck.seen(["kmeans-init", seed])
         meta = {"seed": seed, "n": n, "d": d, "K": K, "distinct_points": len(base)}
@@ -166,6 +168,19 @@ def m3_kmeans_init(ck, em, rng, count):
                 ck.violation("M3:KMeans:AllFinite", {"mechanism": "M3", "meta": meta, "X": X.tolist(), "init": init.tolist(),
                                                      "detail": "centroids %s" % cent.tolist()})
                 continue
+            for how, Xin in (("NumPy", X), ("Dask", None)):
+                if Xin is None:
+                    import dask
+                    import dask.array as da
+                    with dask.config.set(scheduler="synchronous"):
+                        v, w = kmm.get_variances_and_weights_for_each_cluster(da.from_array(X, chunks=(max(1, n // 2), d)))
+                        v, w = np.asarray(v, dtype=float), np.asarray(w, dtype=float)
+                else:
+                    v, w = (np.asarray(a, dtype=float) for a in kmm.get_variances_and_weights_for_each_cluster(Xin))
+                if not (np.all(np.isfinite(v)) and np.all(np.isfinite(w)) and np.all(v >= 0) and abs(w.sum() - 1) < 1e-9):
+                    ck.violation("M3:KMeans:ClusterStatisticsFinite", {"mechanism": "M3", "meta": meta, "X": X.tolist(), "init": init.tolist(),
+                                                                       "detail": "%s input: cluster variances %s weights %s" % (how, v.tolist(), w.tolist())})
+                    break
             g = em.GMMMachine(K, k_means_trainer=em.KMeansMachine(K, init_method=init.copy(), max_iter=2, convergence_threshold=None),
                               max_fitting_steps=int(r.randint(0, 3)), convergence_threshold=1e-5)
             g.fit(X)
